@@ -119,6 +119,21 @@ CHECKS["C03"] = (
     "DESIGN.md §3 C03",
 )
 
+CHECKS["C08"] = (
+    "exploration",
+    "bounded-exhaustive enumeration of genealogy event interleavings x tie patterns x grid placements x height-vector permutations against closed-form Kingman densities",
+    "Every valid interleaving of sampling and coalescent events for n=2..5 tips (thorough ..7) x every tie "
+    "pattern between consecutive sampling events x every placement of 1..3 grid points in the gaps between "
+    "events and beyond the root x every permutation of the sampling block and of the internal block of the "
+    "height vector (all for n<=4) x {constant, exponential with growth +-0.3, skyride, skygrid, "
+    "piecewise-linear} x {distinct, equal} population sizes: log_prob and the JSON-built model call are "
+    "compared (1e-10) with -sum C(k,2) int 1/N - sum log N(t_coal) computed from the documented N(t) with "
+    "closed-form integrals (cross-checked against mpmath quadrature each run); plus the two laws (equal "
+    "pieces = constant model, scaling by c shifts by -(n-1) log c).",
+    "Generic event times (no coalescent event on a grid point or sampling time); piecewise-exponential only 'evaluates' (N(t) undocumented; open finding).",
+    "DESIGN.md §3 C08",
+)
+
 NOT_APPLICABLE = {}
 
 PENDING_REASON = ("check not built yet in this revision (planned in DESIGN.md §3); "
